@@ -146,7 +146,7 @@ extern bool g_collect;   // false while shrinking / replaying, so that they do n
 // ---------------------------------------------------------------- properties
 struct GenOpts {
     std::string tier;              // quick | thorough
-    std::string config;            // malloc | heap | noinfo | dtostre | user
+    std::string config;            // malloc | heap | noinfo | dtostre | user | noinfouser
     std::vector<std::string> avoid;   // generator switches to keep off (open known findings)
     bool avoids(const char *sw) const {
         for (auto &a : avoid) if (a == sw) return true;
@@ -176,7 +176,7 @@ struct PropertyRegistrar {
     explicit PropertyRegistrar(const Property *p) { register_property(p); }
 };
 
-const char *build_config();   // malloc | heap | noinfo | dtostre | user (compile-time)
+const char *build_config();   // malloc | heap | noinfo | dtostre | user | noinfouser (compile-time)
 
 // shrinker (shrink.cc)
 struct ShrinkStats {
